@@ -474,7 +474,7 @@ def case_strategy(tier, classes=("cuckoo", "counting"), allow_reload=False, max_
         return {
             "cls": cls, "cap": cap, "bs": bs, "swaps": swaps,
             "fs": draw(st.sampled_from([1, 2, 3, 4])), "rate": draw(st.sampled_from([2, 2, 3, 1])),
-            "auto": draw(st.booleans()), "hash": draw(st.sampled_from(["default", "narrow", "narrow16", "sha", "clustered", "clustered", "falsy_sha"])),
+            "auto": draw(st.booleans()), "hash": draw(st.sampled_from(["default", "narrow", "narrow16", "sha", "clustered", "clustered", "falsy_sha", "edges"])),
             "pool": pool, "tape": draw(st.lists(st.integers(0, 5), max_size=60)),
             "ops": oplist, "enum_last": enum, "verify_mask": draw(st.one_of(st.just(0), st.just(0), st.integers(1, 255))),
         }
